@@ -55,7 +55,8 @@ func (c *nilValReturnChecker) VisitStmt(stmt ast.Stmt) {
 	}
 	xIsNil := expr.Op == token.EQL &&
 		typep.SideEffectFree(c.ctx.TypesInfo, expr.X) &&
-		qualifiedName(expr.Y) == "nil"
+		qualifiedName(expr.Y) == "nil" &&
+		c.ctx.TypesInfo.Types[expr.Y].IsNil() // the predeclared nil, not a variable of that name
 	if !xIsNil {
 		return
 	}
